@@ -170,6 +170,29 @@ def check_registry(ctx):
             ok = node is not None and U(rv.expand(a0, node, allow_mutated=True)) == "dataset.attrs['droplet_class']"
         ctx.decide(ok, "IOAGREE", f"{q}:class", (r, cs[0]) if cs else r, "members are rebuilt with the class named in the file",
                    "the reader does not rebuild members via droplet_from_data(dataset.attrs['droplet_class'], row)")
+        # every stored row becomes a member: the rows are taken from the dataset as it is — no filter, no mask, no sub-range
+        # (an unset interface width is stored as NaN: "skip rows with undefined values" drops valid droplets)
+        if len(cs) == 1 and q.endswith("Emulsion._from_hdf_dataset"):
+            comp = None
+            for n_ in ast.walk(r.node):
+                if isinstance(n_, (ast.ListComp, ast.GeneratorExp)) and any(x is cs[0] for x in ast.walk(n_.elt)):
+                    comp = n_
+            loop = stmt_index(rv).enclosing(cs[0], (ast.For,)) if comp is None else None
+            src = filt = None
+            at_ = None
+            if comp is not None and len(comp.generators) == 1:
+                src, filt = comp.generators[0].iter, comp.generators[0].ifs
+                for nn in rv.cfg.nodes:
+                    if nn.stmt is not None and any(x is comp for x in ast.walk(nn.stmt)):
+                        at_ = nn
+            elif loop is not None:
+                src, filt, at_ = loop[0].iter, [t_ for t_, _p in stmt_index(rv).effective_guards(cs[0]) if any(x is t_ for x in ast.walk(loop[0]))], loop[0]
+            if src is not None:
+                sx = rv.expand(src, at_, allow_mutated=True, stop=("dataset",)) if at_ is not None else src
+                whole = U(sx) in ("dataset", "dataset[()]", "dataset[:]", "dataset[...]", "iter(dataset)", "list(dataset)", "np.asarray(dataset)", "np.array(dataset)")
+                ctx.decide(whole and not filt, "IOAGREE", f"{q}:all-rows", (r, cs[0]), "one member per stored row: the rows are read from the dataset unfiltered",
+                           f"members are rebuilt from `{U(sx)[:60]}`" + (f" under the filter `{U(filt[0])[:50]}`" if filt else "") + ", not from every row of the dataset: rows are dropped while reading "
+                           "(an unset interface width is stored as NaN, so a finiteness filter discards valid droplets) and the emulsion reads back shorter than it was written")
 
 
 def check_one_class(ctx):
@@ -488,6 +511,21 @@ def check_layouts(ctx, rule="LAYOUT"):
                     if rebound and not dropped:
                         ctx.violate(rule, f"{ci.qualname}:ctor-chain", (init, sup[0]), f"the constructor rebinds {rebound} before handing it to super().__init__: the stored value is not the one "
                                     "the caller supplied (e.g. amplitudes padded to another length: the droplet has more amplitudes than requested)")
+                        n += 1
+                        continue
+                    # … and does not overwrite afterwards what the parent has stored for them (readers rebuild droplets through
+                    # the constructor: a constructor that adjusts a stored field makes the read-back differ from what was written)
+                    rewrites = []
+                    for s_ in ast.walk(init.node):
+                        tg_ = s_.targets if isinstance(s_, ast.Assign) else ([s_.target] if isinstance(s_, ast.AugAssign) else [])
+                        for t_ in tg_:
+                            txt_ = U(t_)
+                            for p_ in shared:
+                                if txt_.startswith(f"self.data['{p_}']") or txt_.startswith(f'self.data["{p_}"]') or txt_ == f"self.{p_}" or txt_.startswith(f"self.{p_}["):
+                                    rewrites.append((s_, p_))
+                    if rewrites and not dropped:
+                        ctx.violate(rule, f"{ci.qualname}:ctor-chain", (init, rewrites[0][0]), f"`{U(rewrites[0][0])[:60]}` overwrites the field `{rewrites[0][1]}` that the parent constructor has just stored from the "
+                                    "caller's value: a droplet rebuilt through the constructor (file reading, from_droplet, copy) no longer carries the values it was built from")
                         n += 1
                         continue
                     if not unres:
